@@ -20,6 +20,10 @@ CHECKS = {
     text="One incoming stanza with solver-variable fields (id, from, participant, notify, t as unconstrained strings/integers; notification type unconstrained or each documented kind with its documented body; call kinds; ping id; concrete protobuf payloads of every unsupported kind, unknown mediatype as unconstrained string) is injected below the really assembled layer set (3 encryption layers with an ideal manager stub + all protocol layers of the selected modules). z3 decides on every path: exactly one ack/receipt/pong with equal id, class, type, to and participant.",
     note="Trusted: engine string model, manager stub (only reached by encrypt notifications). One stanza per run; module selections all/none/single-off (quick), all 16 with and without encryption layers (thorough).",
     technique="symbolic execution of the assembled protocol layers with z3 string variables; concrete replay of every model"),
+ "C08": dict(cat="model_checking", design="4/C08",
+    text="Real YowInterfaceLayer on top of the assembled encryption + protocol layers. step: one outstanding request of each of 16 kinds (ping, last seen, picture, statuses, privacy, group operations, contact sync, media upload), a reply whose id is an unconstrained z3 string and whose type is result/error, delivered twice: success/error callback exactly once iff id matches, with the original request, replay invokes nothing. history: 2 (thorough 3) outstanding requests of solver-chosen kinds x 3 (4) deliveries to solver-chosen targets (incl. unknown ids) in any order. internal: key upload and key fetch registries of the encryption layers.",
+    note="Trusted: engine string model, manager stub, reply bodies of documented shape. Reply types other than result/error and histories beyond the bound are outside.",
+    technique="symbolic execution of the request registries in the assembled stack (z3 string reply id, solver-chosen histories); concrete replay of every model"),
  "C09": dict(cat="model_checking", design="4/C09",
     text="For every entity class with a documented stanza (57 repository fixtures + hand-written templates for ~45 classes without fixture) the documented stanza becomes a template whose non-discriminator attributes are unconstrained z3 strings / integers (list children 0..3, optional attributes dropped); symbolic execution of fromProtocolTreeNode + toProtocolTreeNode must reproduce the template for all values (classes built from incoming stanzas), and stanzas of sendable classes (built through the constructor with symbolic arguments) must satisfy the codec's typing contract; every path witness also goes through the real encoder/decoder.",
     note="Trusted: template catalogue (documented shapes, discriminators kept concrete, repeated fields tied, sibling jids distinct), engine string model (z3 Strings), z3. The protobuf payload of message stanzas is opaque here (C10).",
